@@ -29,6 +29,11 @@ pub enum Mutation {
     /// 2^63-16 / 2^40 / 2^31 / 2^27 / 2^64-1 (lengths that overflow, cannot be allocated, can be
     /// allocated but dwarf the input)
     HugeLength(u16, u8),
+    /// a well-formed JSON value of the wrong shape that carries a long string (`.1` characters of 1-4
+    /// UTF-8 bytes each, chosen by `.0`): as a bare string, as the single key of an object (an unknown
+    /// variant), or inside an array. serde quotes such input back in its error text; on the bincode
+    /// bridge these are just bytes.
+    WrongShape(u8, u16),
 }
 #[derive(Debug, Clone, PartialEq, Eq, Hash, Serialize, Deserialize)]
 pub enum Target {
@@ -94,6 +99,18 @@ fn mutate(valid: Vec<u8>, m: &Mutation) -> Vec<u8> {
                 let i = *p as usize % b.len();
                 b[i] = *v;
             }
+        }
+        Mutation::WrongShape(kind, len) => {
+            let ch = ["a", "\u{e9}", "\u{2713}", "\u{1d11e}"][(*kind as usize / 3) % 4];
+            let n = 1 + *len as usize % (560 / ch.len());
+            // (an ASCII prefix of 0-2 bytes shifts where a byte limit falls inside the characters)
+            let text = format!("{}{}", &"xy"[..(*kind as usize / 12) % 3], ch.repeat(n));
+            b = match kind % 3 {
+                0 => format!("\"{text}\""),
+                1 => format!("{{\"{text}\":null}}"),
+                _ => format!("[\"{text}\"]"),
+            }
+            .into_bytes();
         }
         Mutation::HugeLength(p, kind) => {
             if b.len() >= 8 {
